@@ -12,6 +12,44 @@ from ..sexp import (A, dumps, env_to_sx, exc_to_sx, expr_to_sx, loads, sx_shrink
                     sx_to_expr)
 
 
+def _nanlike(x):
+    if isinstance(x, float):
+        return x != x
+    if isinstance(x, complex):
+        return x.real != x.real or x.imag != x.imag
+    return False
+
+
+def values_equal(a, b) -> bool:
+    """Python `==` on evaluation results, with nan equal to nan: floats, the real / imaginary PARTS
+    of complex numbers, recursively through tuples, lists, call records and records.  (`nan != nan`
+    in Python; two evaluations that both end in `nan+nanj` agree.)"""
+    from fractions import Fraction as _F
+    from ..sexp import App, Record
+    try:
+        if isinstance(a, (tuple, list)) and isinstance(b, (tuple, list)):
+            return (type(a) is type(b) and len(a) == len(b)
+                    and all(values_equal(x, y) for x, y in zip(a, b)))
+        if isinstance(a, App) and isinstance(b, App):
+            return (a.f == b.f and values_equal(a.args, b.args) and a.kw.keys() == b.kw.keys()
+                    and all(values_equal(a.kw[k], b.kw[k]) for k in a.kw))
+        if isinstance(a, Record) and isinstance(b, Record):
+            return (a.__dict__.keys() == b.__dict__.keys()
+                    and all(values_equal(a.__dict__[k], b.__dict__[k]) for k in a.__dict__))
+        if _nanlike(a) or _nanlike(b):
+            num = (int, float, complex, _F)
+            if not (isinstance(a, num) and isinstance(b, num)):
+                return False
+            ca, cb = complex(a), complex(b)
+
+            def part(x, y):
+                return (x != x and y != y) or x == y
+            return part(ca.real, cb.real) and part(ca.imag, cb.imag)
+        return bool(a == b)
+    except Exception:
+        return False
+
+
 def sigma_to_dict(sigma):
     d = {}
     for kind, k, v in sigma:
@@ -250,7 +288,7 @@ class SubstStream(Stream):
         if want[0] != "ok":
             return None
         got = outcome(lambda: pyeval(r, env))
-        ok = got[0] == "ok" and loosely_equal(want[1], got[1])
+        ok = got[0] == "ok" and values_equal(want[1], got[1])
         if not ok:
             try:
                 collapses = any(
@@ -332,14 +370,23 @@ def _rp(x):
     return s_ if len(s_) < 400 else s_[:400] + "..."
 
 
-def judge(e, r, env, sd, pl, plain=None):
+def _pyeq(a, b):
+    try:
+        return bool(a == b)
+    except Exception:
+        return False
+
+
+def judge(e, r, env, sd, pl, plain=None, acc=None):
     """value half of the property for one (expression, result) pair: `r` evaluated in `env` must be
     what `e` means when each intercepted node takes the value of its replacement"""
     want = outcome(lambda: eval_overridden(e, env, sd))
     if want[0] != "ok":
         return None
+    if acc is not None:
+        acc["evaluable"] = acc.get("evaluable", 0) + 1
     got = outcome(lambda: pyeval(r, env))
-    if got[0] == "ok" and loosely_equal(want[1], got[1]):
+    if got[0] == "ok" and values_equal(want[1], got[1]):
         return None
     from pymbolic.mapper.substitutor import SubstitutionMapper, make_subst_func
     try:
@@ -352,9 +399,10 @@ def judge(e, r, env, sd, pl, plain=None):
     if collapses:
         return Failure("cse-zero-child-collapses", f"a CSE whose substituted child is falsy "
                        f"collapses to 0: {_rp(got)} vs {_rp(want)}", pl)
-    if plain is not None and spelled(plain) != spelled(r):
+    if plain is not None and spelled(plain) != spelled(r) and _pyeq(plain, r):
+        # only an ==-EQUAL tree is "another spelling"; any other tree is a wrong answer
         got_plain = outcome(lambda: pyeval(plain, env))
-        if got_plain[0] == "ok" and loosely_equal(want[1], got_plain[1]):
+        if got_plain[0] == "ok" and values_equal(want[1], got_plain[1]):
             return Failure("cached-other-spelling-changes-value",
                            f"the memoizing mapper returned {_rp(r)} (an ==-equal tree cached for "
                            f"another spelling) which evaluates to {_rp(got)}; the plain mapper's "
@@ -735,7 +783,7 @@ class AggStream(Stream):
         got = outcome(lambda: pyeval(r, env))
         if want[0] != "ok":
             return None
-        if got[0] == "ok" and loosely_equal(want[1], got[1]):
+        if got[0] == "ok" and values_equal(want[1], got[1]):
             return None
         return Failure("subst-aggregate-value",
                        f"substituted tree gives {got!r}; the original with t, r and the names "
@@ -757,6 +805,275 @@ class AggStream(Stream):
             acc["key_" + str(kk)] = acc.get("key_" + str(kk), 0) + 1
 
 
+# ---------------------------------------------------------------------------------------------
+# whole-node keys of every shape (nested aggregates) and keys that the substitution itself builds
+# ---------------------------------------------------------------------------------------------
+
+def entries_to_sigma(entries):
+    sigma = []
+    for k, v in entries:
+        if isinstance(k, str):
+            sigma.append(["name", k, spelled(v)])
+        else:
+            sigma.append(["expr", spelled(k), spelled(v)])
+    return norm_sigma(sigma)
+
+
+def refine_value_key(f, e, r, sd):
+    """a `subst-value` failure classified by the clause of the property it breaks"""
+    if f is None or f.key != "subst-value":
+        return f
+    from ..c08_composite import classify
+    k = classify(e, r, sd)
+    if k is not None:
+        f.key = k
+        f.detail = {"subst-key-ignored": "a key of the map that occurs in the expression was not "
+                                         "replaced: ",
+                    "subst-output-substituted-again": "a node that the substitution built or "
+                                                      "inserted was looked up in the map again "
+                                                      "(not simultaneous): "}[k] + f.detail
+    return f
+
+
+class CompositeKeyStream(SubstStream):
+    """Expressions rich in selection chains (`a[i][j]`, `r.p.x`, `r.d[c[i]]`, `(a if .. else b)[i]`)
+    with maps whose keys are whole subscript / look-up nodes at EVERY nesting level (the aggregate
+    of a key is a name, a selection or any other expression), neighbours that do not occur, swaps
+    of selections with each other and with variables, and keys that do not occur in the expression
+    but are what the map BUILDS from a node that does (`a[i]`, `{i: j, a[j]: 7}`), closed under
+    substituting the output again.  Correspondence with the model on the result tree and the
+    identity flag; oracle: the property's value statement (override reading), for the plain and the
+    memoizing mapper, in an environment against which the selections are well typed."""
+    name = "composite-keys"
+
+    def cases(self, rng, tier):
+        from ..c08_composite import SelGen, make_composite_sigma, sel_env
+        n = 1500 if tier == "quick" else 25000
+        G = SelGen(rng)
+        g = ExprGen(rng, cse=0.1, lists=False, foreign=False, malformed=0.0)
+        self.tags = {}
+        for i in range(n):
+            e = G.gen(rng.randint(1, 4))
+            env = sel_env(rng)
+            if i % 7 == 0:
+                # every node type around the selections
+                e = p.Sum((e, g.gen(rng.choice(["num", "any", "int"]), rng.randint(1, 3))))
+                env = {**rand_env(rng), **env}
+            entries = make_composite_sigma(rng, G, e, self.tags)
+            if not entries:
+                continue
+            yield {"sigma": entries_to_sigma(entries), "env": dumps(env_to_sx(env)),
+                   "cached": bool(i % 2), "expr": spelled(e)}
+
+    def oracle(self, pl):
+        f = super().oracle(pl)
+        if f is not None and f.key == "subst-value":
+            e = sx_to_expr(loads(pl["expr"]))
+            try:
+                r = run_subst(e, pl["sigma"], pl["cached"])
+            except Exception:
+                return f
+            f = refine_value_key(f, e, r, sigma_to_dict(pl["sigma"]))
+        return f
+
+    def stats(self, pl, mo, io, acc):
+        super().stats(pl, mo, io, acc)
+        for kind, k, _v in pl["sigma"]:
+            if kind == "expr":
+                key = sx_to_expr(loads(k))
+                if isinstance(key, (p.Subscript, p.Lookup)):
+                    acc["key_selection"] = acc.get("key_selection", 0) + 1
+                    if not isinstance(key.aggregate, p.Variable):
+                        acc["key_aggregate_not_a_name"] = acc.get("key_aggregate_not_a_name", 0) + 1
+        env = sx_to_env(loads(pl["env"]))
+        e = sx_to_expr(loads(pl["expr"]))
+        if outcome(lambda: eval_overridden(e, env, sigma_to_dict(pl["sigma"])))[0] == "ok":
+            acc["evaluable"] = acc.get("evaluable", 0) + 1
+        for t, c in getattr(self, "tags", {}).items():
+            acc["maps_with_" + t] = c
+
+
+# ---------------------------------------------------------------------------------------------
+# ONE long-lived memoizing mapper fed TEMPORARIES (arguments built for one call and dropped)
+# ---------------------------------------------------------------------------------------------
+
+TEMP_NAMES = ["x", "y", "z", "u", "v", "w"]
+KNOWN_VALUE_KEYS = ("cse-zero-child-collapses", "cached-other-spelling-changes-value")
+
+
+def temp_entries(rng):
+    """a map over `TEMP_NAMES`: a swap, chains, compound replacements; keys by name or by object;
+    sometimes a whole subscript `a[k]`"""
+    names = rng.sample(TEMP_NAMES, rng.randint(2, 4))
+    V = p.Variable
+    entries = []
+
+    def key(nm):
+        return nm if rng.random() < 0.6 else V(nm)
+    rest = names
+    if rng.random() < 0.7:
+        entries += [(key(names[0]), V(names[1])), (key(names[1]), V(names[0]))]
+        rest = names[2:]
+    for nm in rest:
+        o1, o2 = rng.choice(TEMP_NAMES), rng.choice(TEMP_NAMES)
+        entries.append((key(nm), rng.choice([
+            V(o1), p.Sum((V(o1), rng.randint(1, 9))), p.Sum((p.Product((V(o1), V(o2))), 1)),
+            rng.randint(2, 9), p.Subscript(V("a"), V(o1))])))
+    if rng.random() < 0.3:
+        entries.append((p.Subscript(V("a"), rng.choice([V(rng.choice(TEMP_NAMES)),
+                                                         rng.randint(1, 180)])),
+                        V(rng.choice(TEMP_NAMES))))
+    return entries
+
+
+class CachedTemporariesStream(Stream):
+    """"The plain and memoizing substitution mappers give equal results" and "substitute, then
+    evaluate = evaluate in the updated environment" for EVERY call on one mapper object, when the
+    arguments are temporaries: each expression is built inside the call that passes it and is dead
+    when the call returns (`harness/temporaries.py`), as happens when expressions are re-parsed /
+    re-generated per request.  30..100 calls on ONE `CachedSubstitutionMapper`:
+      * `family`: structurally identical expressions with different contents (the freed blocks of
+        one member are what the next one is built in), some members exact repetitions;
+      * `pool`: a pool of selection-rich expressions with a composite-key map, called again and
+        again in random order (every call a newly built, structurally equal tree).
+    Correspondence: the result trees against the model's memo table threaded through the history
+    (`c08-hist`; the model has no object identities, so nothing in it can depend on addresses).
+    Oracle: every answer, at once, against the property's value statement and against the plain
+    mapper applied afresh; a failure that a NEW memoizing mapper does not show is classified as
+    `cached-temporaries-*` (state carried across calls)."""
+    name = "cached-temporaries"
+
+    def cases(self, rng, tier):
+        from .. import temporaries as T
+        from ..c08_composite import SelGen, make_composite_sigma, sel_env
+        n = 30 if tier == "quick" else 300
+        for i in range(n):
+            if i % 2 == 0:
+                # calls (their values support no arithmetic) and subscripts (computed indices
+                # leave the table) make a family one that is judged by comparison only
+                ops = ["sum", "sum", "prod", "prod", "quot", "pow", "cse"]
+                ops += ["subscript"] * (rng.random() < 0.35) + ["call"] * (rng.random() < 0.3)
+                g = T.TemplateGen(rng, ops, fixed_vars=["x", "x", "y", "z"], carrier_var="x", var_holes=True)
+                k = rng.randint(20, 60)
+                exprs = T.family(rng, g, rng.randint(2, 3), k, names=TEMP_NAMES,
+                                 repeat=rng.choice([0.0, 0.15, 0.4]))
+                entries = temp_entries(rng)
+                env = {nm: rng.randint(1, 5) for nm in TEMP_NAMES}      # positive: no zero divisors
+                for t in exprs:                      # the names at the holes
+                    for s_ in scan.subterms(sx_to_expr(loads(t))):
+                        if isinstance(s_, p.Variable) and s_.name not in ("a", "f", "g"):
+                            env.setdefault(s_.name, rng.randint(1, 5))
+                env["a"] = tuple(rng.randint(-9, 9) for _ in range(400))
+                env["f"], env["g"] = Func("f"), Func("g")
+                mode = "family"
+            else:
+                G = SelGen(rng)
+                pool = [G.gen(rng.randint(1, 3)) for _ in range(rng.randint(6, 16))]
+                entries = make_composite_sigma(rng, G, p.Sum(tuple(pool)))
+                texts = [spelled(e) for e in pool]
+                k = rng.randint(30, 100)
+                if rng.random() < 0.5:
+                    exprs = [rng.choice(texts) for _ in range(k)]
+                else:                          # rounds: the whole pool comes around again
+                    exprs = []
+                    while len(exprs) < k:
+                        exprs += rng.sample(texts, len(texts))
+                env = sel_env(rng)
+                mode = "pool"
+            if not all(is_safe(sx_to_expr(loads(t)), env) for t in set(exprs)):
+                continue
+            r = rng.random()
+            gc_at = [] if r < 0.35 else list(range(k)) if r < 0.45 else \
+                sorted(rng.sample(range(k), max(1, k // 6)))
+            yield {"mode": mode, "sigma": entries_to_sigma(entries), "env": dumps(env_to_sx(env)),
+                   "exprs": exprs, "gc": gc_at, "hold": bool(i % 4 < 2), "share": bool(i % 5 == 3)}
+
+    def request(self, pl):
+        return f"(c08-hist {sigma_req(pl['sigma'])} ({' '.join(pl['exprs'])}))"
+
+    def _mapper(self, pl):
+        from pymbolic.mapper.substitutor import CachedSubstitutionMapper, make_subst_func
+        return CachedSubstitutionMapper(make_subst_func(sigma_to_dict(pl["sigma"])))
+
+    def run_impl(self, pl):
+        from .. import temporaries as T
+        parts = []
+
+        def judge(i, text, out):
+            parts.append(out[1] if out[0] == "ok" else f"(err {out[1]})")
+        T.run_family(self._mapper(pl), pl["exprs"], judge, collect_at=pl["gc"], hold=False,
+                     share=pl["share"], post=spelled)
+        return "(" + " ".join(parts) + ")"
+
+    def oracle(self, pl):
+        from pymbolic.mapper.substitutor import (CachedSubstitutionMapper, SubstitutionMapper,
+                                                 make_subst_func)
+        from .. import temporaries as T
+        env = sx_to_env(loads(pl["env"]))
+        sd = sigma_to_dict(pl["sigma"])
+        hold, share, n = pl["hold"], pl["share"], len(pl["exprs"])
+        pending = []
+        acc = self.last = {}
+
+        def judge_member(i, text, out):
+            if out[0] != "ok":
+                return Failure("subst-raises", f"call #{i}: {out[1]}", pl)
+            got_text = spelled(out[1]) if hold else out[1]
+            e = T.build(text)                      # a copy of the argument to judge the answer with
+            r = sx_to_expr(loads(got_text))
+            plain = SubstitutionMapper(make_subst_func(sd))(e)
+            fl = judge(e, r, env, sd, pl, plain=plain, acc=acc)
+            differs = not (r == plain)
+            if fl is None and not differs:
+                return None
+            fresh = CachedSubstitutionMapper(make_subst_func(sd))(T.build(text))
+            fresh_ok = fresh == plain and judge(e, fresh, env, sd, pl, plain=plain) is None
+            what = (f"call #{i} of {n} on ONE CachedSubstitutionMapper (every earlier argument was "
+                    f"dropped before this one was built): m({text[:240]}) = {got_text[:300]}; a new "
+                    f"memoizing mapper gives {spelled(fresh)[:300]}, the plain mapper "
+                    f"{spelled(plain)[:300]}")
+            if fresh_ok:
+                if fl is not None:
+                    return Failure("cached-temporaries-value", f"{what}; {fl.detail}", pl)
+                return Failure("cached-temporaries-differ", what, pl)
+            if fl is not None:
+                if fl.key in KNOWN_VALUE_KEYS:
+                    pending.append(fl)             # go on: later calls are judged too
+                    return None
+                return refine_value_key(fl, e, r, sd)
+            return Failure("cached-plain-differ", what, pl)
+
+        import warnings
+        with warnings.catch_warnings():
+            warnings.simplefilter("ignore")
+            f = T.run_family(self._mapper(pl), pl["exprs"], judge_member, collect_at=pl["gc"],
+                             hold=hold, share=share, post=None if hold else spelled)
+        if f is None and pending:
+            f = pending[0]
+        return f
+
+    def shrink(self, pl):
+        # the history stays whole: which call lands on a recycled address is up to the allocator
+        if pl.get("share"):
+            yield {**pl, "share": False}
+        if pl["gc"]:
+            yield {**pl, "gc": []}
+        sg = pl["sigma"]
+        for i in range(len(sg)):
+            yield {**pl, "sigma": sg[:i] + sg[i + 1:]}
+
+    def nontrivial_key(self, pl, model, impl):
+        return pl["mode"] + sigma_req(pl["sigma"]) + pl["exprs"][0]
+
+    def stats(self, pl, mo, io, acc):
+        acc[pl["mode"]] = acc.get(pl["mode"], 0) + 1
+        acc["calls"] = acc.get("calls", 0) + len(pl["exprs"])
+        acc["calls_repeating_an_earlier_argument"] = acc.get(
+            "calls_repeating_an_earlier_argument", 0) + len(pl["exprs"]) - len(set(pl["exprs"]))
+        acc["answers_judged_by_value"] = acc.get("answers_judged_by_value", 0) + \
+            getattr(self, "last", {}).get("evaluable", 0)
+
+
 def probes():
     from pymbolic.mapper.substitutor import substitute
     e = p.CommonSubexpression(0)
@@ -772,7 +1089,7 @@ def probes():
     env3 = {"y": 1, "i": 3, "f": Func("f")}
     want3 = outcome(lambda: pyeval(e3, env3))
     got3 = outcome(lambda: pyeval(r3, env3))
-    spelling_fails = not (want3[0] == "ok" and got3[0] == "ok" and loosely_equal(want3[1], got3[1]))
+    spelling_fails = not (want3[0] == "ok" and got3[0] == "ok" and values_equal(want3[1], got3[1]))
     return [("cached-other-spelling-changes-value", spelling_fails,
              f"substitute({e3!r}, {{}}) returns {r3!r}: {got3!r} instead of {want3!r}"),
             ("cse-zero-child-collapses", r is not e,
@@ -790,10 +1107,11 @@ def extract_substitutor(ctx=None):
 PROP = Prop(
     id="C08",
     title="Substitution commutes with evaluation",
-    lean_targets=["PV.Properties.C08"],
+    lean_targets=["PV.Properties.C08", "PV.Properties.C08Built"],
     extractors=[extract_substitutor],
     theorems=[],
-    streams=[SubstStream(), KwStream(), HistStream(), AggStream()],
+    streams=[SubstStream(), KwStream(), HistStream(), AggStream(), CompositeKeyStream(),
+             CachedTemporariesStream()],
     probes=[probes],
     trusted_base=["Lean 4.33 kernel; axioms propext, Classical.choice, Quot.sound only",
                   "PyNum/den (see C02); harness serialisation"],
